@@ -226,8 +226,8 @@ fn seq(alias: &str, elem: &str, gen: Gen, vmap: &str, dense: usize, symcap: usiz
     TCase::Seq { alias: alias.into(), elem: elem.into(), gen, vmap: vmap.into(), ties: None, dense, symcap }
 }
 
-const PLAIN_MAPS: [&str; 6] = ["id", "pow4", "holes", "wide", "top", "mid"];
-const HUFF_MAPS: [&str; 4] = ["hid", "hpow4", "hholes", "hbig"];
+const PLAIN_MAPS: [&str; 7] = ["id", "pow4", "holes", "wide", "top", "mid", "maxy"];
+const HUFF_MAPS: [&str; 5] = ["hid", "hpow4", "hholes", "hbig", "hmaxy"];
 
 fn tiny_family(out: &mut Vec<TCase>, aliases: &[&str], elems: &[&str], maps: &[&str], k: u32, l: u32) {
     for g in tiny_all(k, l) {
